@@ -4,11 +4,17 @@
    A configuration c (everything read_client_conf can see):
      n      number of candidate configuration-file paths of the platform (ordered 1..n)
      exist  subset of 1..n: which candidate files exist
-     key    [1..n -> [Settings -> {"present", "absent", "commented"}]]   content of each file
+     kind   [1..n -> {"file", "dir"}]   what an EXISTING candidate path is on disk: a regular readable file, or
+            something that exists but cannot be read as a file (a directory of that name; the portable stand-in for
+            "permission denied", "I/O error", ... - the sandbox runs as root, so mode bits do not stop open()).
+            Meaningless for candidates that do not exist.
+     key    [1..n -> [Settings -> {"present", "absent", "commented", "emptyval"}]]   content of each file;
+            "emptyval" = the key is there with nothing after the '=' ("transport=")
      body   [1..n -> {"plain", "empty", "blank"}]   how an existing file is written: "empty" = 0 bytes (only if
             all its keys are absent), "blank" = nothing but whitespace and comment lines (no key present),
             "plain" otherwise.  A file EXISTS whatever its content: Resolve does not look at body.
-     env    [Settings -> BOOLEAN]            NDN_CLIENT_TRANSPORT / _PIB / _TPM set?
+     env    [Settings -> {"unset", "set", "empty"}]   NDN_CLIENT_TRANSPORT / _PIB / _TPM: not in the environment,
+            set to a value, or set to the EMPTY string ("NDN_CLIENT_TRANSPORT= ./app", "export NDN_CLIENT_PIB=")
      loc    [Stores -> LocClass]             the location carried by every non-default value of that store
      defx   [Stores -> Seq(BOOLEAN)]         which of the platform's default locations exist (ordered)
      val    the alphabet of the values of the non-default sources:
@@ -19,7 +25,20 @@
             Which source wins and how a location resolves never depends on the characters of a value.
 
    Every source has its own value, so the result tells which source was used:
-     Src("env",0), Src("file",i), Src("def",0).
+     Src("env",0), Src("file",i), Src("def",0); the empty string (all empty sources look alike) shows as Src("empty",0).
+
+   Interpretation decisions for the two "present but degenerate" dimensions:
+   * PRESENT BUT EMPTY.  "the value used is the environment override IF PRESENT, else the value in the first
+     existing file": a variable set to the empty string is present, a key written "transport=" is a value in the
+     file.  The value used is then the empty string - it is not skipped in favour of a lower layer.  The empty
+     string names no scheme, so default_face / default_keychain refuse it ("refused with an error rather than
+     silently replaced"), and as a store value it carries no location (falls back to the default location).
+   * EXISTS BUT UNREADABLE.  "the first EXISTING configuration file": existence decides which candidate is THE
+     configuration file; a candidate that exists but cannot be read as a file is not skipped in favour of a
+     lower-priority candidate, nor treated as if no file existed (its content is unknown, so neither another file's
+     values nor the platform defaults are "the value in the first existing file").  The only outcome the reference
+     accepts is that read_client_conf refuses with an OSError (err = "oserror").  Candidates AFTER the first
+     existing one are never looked at, whatever they are.
    Location classes:  none (scheme only), absE / absM (absolute, exists / missing), relE (relative, exists
    next to the FIRST EXISTING configuration file), relM (relative, exists nowhere), relCwd (relative,
    exists as given, i.e. relative to the working directory), relOther (relative, exists only next to
@@ -42,13 +61,16 @@ EXTENDS Naturals, Sequences, FiniteSets, TLC
 
 Settings == {"transport", "pib", "tpm"}
 Stores   == {"pib", "tpm"}
-KeyStates == {"present", "absent", "commented"}
+KeyStates == {"present", "absent", "commented", "emptyval"}
+EnvStates == {"unset", "set", "empty"}
+CandKinds == {"file", "dir"}
+HasKey(k) == k \in {"present", "emptyval"}             \* the key is in the file (with or without characters after '=')
 LocClasses == {"none", "absE", "absM", "relE", "relM", "relCwd", "relOther"}
 \* only in stage C: an absolute existing location whose name contains ':' (like every Windows path)
 LocClassesC == LocClasses \cup {"absEc"}
 
 BodiesAllowed(ks) == {"plain"} \cup (IF \A s \in Settings : ks[s] = "absent" THEN {"empty"} ELSE {})
-                                \cup (IF \A s \in Settings : ks[s] # "present" THEN {"blank"} ELSE {})
+                                \cup (IF \A s \in Settings : ~HasKey(ks[s]) THEN {"blank"} ELSE {})
 Src(k, i) == [k |-> k, i |-> i]
 MinOf(S) == CHOOSE a \in S : \A b \in S : a <= b
 FirstExisting(c) == IF c.exist = {} THEN 0 ELSE MinOf(c.exist)
@@ -56,14 +78,22 @@ FirstExisting(c) == IF c.exist = {} THEN 0 ELSE MinOf(c.exist)
 \* ------------------------------------------------------------------ layering, as in read_client_conf
 Layer0(c, s) == Src("def", 0)
 Layer1(c, s) == LET f == FirstExisting(c) IN
-                IF f # 0 /\ c.key[f][s] = "present" THEN Src("file", f) ELSE Layer0(c, s)
-Layer2(c, s) == IF c.env[s] THEN Src("env", 0) ELSE Layer1(c, s)
+                IF f # 0 /\ HasKey(c.key[f][s]) THEN Src("file", f) ELSE Layer0(c, s)
+Layer2(c, s) == IF c.env[s] # "unset" THEN Src("env", 0) ELSE Layer1(c, s)
 Winner(c, s) == Layer2(c, s)
+\* the winning source is present but its value is the empty string
+EmptyVal(c, s) == LET w == Winner(c, s) IN \/ w.k = "env" /\ c.env[s] = "empty"
+                                           \/ w.k = "file" /\ c.key[w.i][s] = "emptyval"
+\* what the value used shows: its source, or that it is the empty string
+Shown(c, s) == IF EmptyVal(c, s) THEN Src("empty", 0) ELSE Winner(c, s)
+\* the first existing candidate cannot be read as a file
+Unreadable(c) == LET f == FirstExisting(c) IN f # 0 /\ c.kind[f] = "dir"
 
 \* ------------------------------------------------------------------ store location
 ValClasses == {"plain", "pct", "punct", "foreigntpm"}
-ForeignTpm(c, s) == s = "tpm" /\ c.val = "foreigntpm" /\ Winner(c, s).k # "def"      \* 'tpm-osxkeychain:' - no location
-LocOf(c, s) == IF Winner(c, s).k = "def" \/ ForeignTpm(c, s) THEN "none" ELSE c.loc[s]   \* platform defaults name a scheme only
+ForeignTpm(c, s) == s = "tpm" /\ c.val = "foreigntpm" /\ Winner(c, s).k # "def" /\ ~EmptyVal(c, s)    \* 'tpm-osxkeychain:' - no location
+\* platform defaults name a scheme only; the empty string names nothing
+LocOf(c, s) == IF Winner(c, s).k = "def" \/ ForeignTpm(c, s) \/ EmptyVal(c, s) THEN "none" ELSE c.loc[s]
 DefIdx(c, s) == LET I == {i \in 1..Len(c.defx[s]) : c.defx[s][i]} IN IF I = {} THEN 0 ELSE MinOf(I)
 W(w, i) == [where |-> w, idx |-> i]
 Where(c, s) ==
@@ -78,7 +108,7 @@ Where(c, s) ==
 
 \* a value without location uses a scheme of its own (recognisable, and not a real store scheme);
 \* values with a location and the platform default use the real scheme
-SchemeValid(c, s) == Winner(c, s).k = "def" \/ (c.loc[s] # "none" /\ ~ForeignTpm(c, s))
+SchemeValid(c, s) == Winner(c, s).k = "def" \/ (c.loc[s] # "none" /\ ~ForeignTpm(c, s) /\ ~EmptyVal(c, s))
 Keychain(c) == IF SchemeValid(c, "pib") /\ SchemeValid(c, "tpm") THEN "ok" ELSE "err"
 
 \* ------------------------------------------------------------------ transport URI -> face
@@ -88,6 +118,7 @@ Uri(scheme, addr, port, path) == [scheme |-> scheme, addr |-> addr, port |-> por
 UriOf(w, val) == CASE w.k = "env"  -> Uri("tcp", IF val = "pct" THEN "fe80::1%25eth0" ELSE "envhost", 7001, "")
                    [] w.k = "file" -> Uri("udp", IF val = "pct" THEN FileHostPct[w.i] ELSE FileHost[w.i], 0, "")
                    [] w.k = "def"  -> Uri("unix", "", 0, "DEFAULT")
+                   [] w.k = "empty" -> Uri("", "", 0, "")
 Face(k, addr, port) == [k |-> k, addr |-> addr, port |-> port]
 DefaultPort == 6363
 FaceOf(u) ==
@@ -97,15 +128,23 @@ FaceOf(u) ==
        ELSE IF u.scheme \in {"udp", "udp4", "udp6"} THEN Face("udp", u.addr, port)
        ELSE Face("err", "", 0)
 
-Resolve(c) == [transport |-> Winner(c, "transport"),
-               pib |-> [src |-> Winner(c, "pib"), where |-> Where(c, "pib")],
-               tpm |-> [src |-> Winner(c, "tpm"), where |-> Where(c, "tpm")],
+\* read_client_conf refuses (OSError); same shape as a result, nothing in it is observable
+Refused == [err |-> "oserror", transport |-> Src("none", 0),
+            pib |-> [src |-> Src("none", 0), where |-> {}], tpm |-> [src |-> Src("none", 0), where |-> {}],
+            kc |-> "none", face |-> Face("none", "", 0)]
+Resolve(c) == IF Unreadable(c) THEN Refused ELSE
+              [err |-> "none",
+               transport |-> Shown(c, "transport"),
+               pib |-> [src |-> Shown(c, "pib"), where |-> Where(c, "pib")],
+               tpm |-> [src |-> Shown(c, "tpm"), where |-> Where(c, "tpm")],
                kc |-> Keychain(c),
-               face |-> FaceOf(UriOf(Winner(c, "transport"), c.val))]
+               face |-> FaceOf(UriOf(Shown(c, "transport"), c.val))]
 
 \* is an observation of the implementation explained by the reference?  (set of failing clauses)
 Clauses(c, o) ==
   LET r == Resolve(c) IN
+  \* o.err: "none" (a result was returned), "oserror", "raised-<other exception class>"; nothing else is observable then
+  IF o.err # r.err THEN {"refusal"} ELSE IF r.err # "none" THEN {} ELSE
   (IF o.transport # r.transport THEN {"transport"} ELSE {})
   \* src "unknown": the value fell back to a default location, which does not tell where the scheme came from
   \cup (IF o.pib.src.k # "unknown" /\ o.pib.src # r.pib.src THEN {"pib_src"} ELSE {})
@@ -120,19 +159,36 @@ P_EnvOverFileOverDefault(c, r) ==
   \A s \in Settings :
     LET f == FirstExisting(c)
         w == IF s = "transport" THEN r.transport ELSE r[s].src
-    IN /\ c.env[s] => w = Src("env", 0)
-       /\ (~c.env[s] /\ f # 0 /\ c.key[f][s] = "present") => w = Src("file", f)
-       /\ (~c.env[s] /\ (f = 0 \/ c.key[f][s] # "present")) => w = Src("def", 0)
+    IN /\ c.env[s] = "set" => w = Src("env", 0)
+       /\ c.env[s] = "empty" => w = Src("empty", 0)                 \* present: used, though empty
+       /\ (c.env[s] = "unset" /\ f # 0 /\ c.key[f][s] = "present") => w = Src("file", f)
+       /\ (c.env[s] = "unset" /\ f # 0 /\ c.key[f][s] = "emptyval") => w = Src("empty", 0)
+       /\ (c.env[s] = "unset" /\ (f = 0 \/ ~HasKey(c.key[f][s]))) => w = Src("def", 0)
+\* an empty value that is used is refused where a scheme is needed - never silently replaced by a lower layer - and
+\* carries no store location
+P_EmptyRefusedNotReplaced(c, r) ==
+  /\ r.transport = Src("empty", 0) => r.face.k = "err"
+  /\ \A s \in Stores : r[s].src = Src("empty", 0) =>
+        /\ r.kc = "err"
+        /\ DefIdx(c, s) # 0 => r[s].where = {W("default", DefIdx(c, s))}
+\* the first existing candidate decides: unreadable <=> refused; and what comes after it never matters
+P_UnreadableRefused(c, r) ==
+  /\ (r.err = "oserror") <=> (c.exist # {} /\ c.kind[FirstExisting(c)] = "dir")
+  /\ r.err \in {"none", "oserror"}
+  /\ LET f == FirstExisting(c)
+         c2 == [c EXCEPT !.kind = [i \in DOMAIN c.kind |-> IF i = f THEN c.kind[i] ELSE "file"]]
+         c3 == [c EXCEPT !.kind = [i \in DOMAIN c.kind |-> IF i = f THEN c.kind[i] ELSE "dir"]]
+     IN r = Resolve(c2) /\ r = Resolve(c3)
 P_OnlyFirstExistingFile(c, r) ==
   \A s \in Settings : LET w == IF s = "transport" THEN r.transport ELSE r[s].src IN
                       w.k = "file" => w.i = FirstExisting(c)
 P_ExistingUsedAsGiven(c, r) ==
-  \A s \in Stores : (r[s].src.k # "def" /\ ~ForeignTpm(c, s) /\ c.loc[s] \in {"absE", "relCwd"}) => r[s].where = {W("given", 0)}
+  \A s \in Stores : (r[s].src.k \in {"env", "file"} /\ ~ForeignTpm(c, s) /\ c.loc[s] \in {"absE", "relCwd"}) => r[s].where = {W("given", 0)}
 P_RelativeNextToFile(c, r) ==
-  \A s \in Stores : (r[s].src.k # "def" /\ ~ForeignTpm(c, s) /\ c.loc[s] = "relE" /\ c.exist # {})
+  \A s \in Stores : (r[s].src.k \in {"env", "file"} /\ ~ForeignTpm(c, s) /\ c.loc[s] = "relE" /\ c.exist # {})
                       => r[s].where = {W("nexttofile", FirstExisting(c))}
 P_MissingFallsBackToDefault(c, r) ==
-  \A s \in Stores : ((r[s].src.k = "def" \/ ForeignTpm(c, s) \/ c.loc[s] \in {"none", "absM", "relM", "relOther"} \/ (c.loc[s] = "relE" /\ c.exist = {}))
+  \A s \in Stores : ((r[s].src.k \in {"def", "empty"} \/ ForeignTpm(c, s) \/ c.loc[s] \in {"none", "absM", "relM", "relOther"} \/ (c.loc[s] = "relE" /\ c.exist = {}))
                      /\ DefIdx(c, s) # 0) => r[s].where = {W("default", DefIdx(c, s))}
 \* "the first existing configuration file": existence counts, not content - an existing file that is
 \* empty or holds only comments still shadows every later candidate
@@ -140,15 +196,15 @@ P_ContentClassIrrelevant(c, r) ==
   LET f == FirstExisting(c) IN
   (f # 0 /\ c.body[f] \in {"empty", "blank"}) =>
      \A s \in Settings : LET w == IF s = "transport" THEN r.transport ELSE r[s].src IN
-                         w = IF c.env[s] THEN Src("env", 0) ELSE Src("def", 0)
+                         w = IF c.env[s] = "set" THEN Src("env", 0) ELSE IF c.env[s] = "empty" THEN Src("empty", 0) ELSE Src("def", 0)
 \* the characters of a value never matter: same sources, same resolution as with plain values
 P_ValueAlphabetIrrelevant(c, r) ==
   c.val \in {"pct", "punct"} =>
     LET p == [c EXCEPT !.val = "plain"] IN
-    /\ r.transport = Winner(p, "transport") /\ r.kc = Keychain(p)
-    /\ \A s \in Stores : r[s].src = Winner(p, s) /\ r[s].where = Where(p, s)
+    /\ r.transport = Shown(p, "transport") /\ r.kc = Keychain(p)
+    /\ \A s \in Stores : r[s].src = Shown(p, s) /\ r[s].where = Where(p, s)
 \* a private-key store of another platform is refused, whoever names it; the platform default is never foreign
-P_ForeignTpmRefused(c, r) == (c.val = "foreigntpm" /\ r.tpm.src.k # "def") => r.kc = "err"
+P_ForeignTpmRefused(c, r) == (c.val = "foreigntpm" /\ r.tpm.src.k \in {"env", "file"}) => r.kc = "err"
 
 \* ------------------------------------------------------------------ platform selection and Linux defaults
 PlatformClass(sysplat) == CASE sysplat = "linux" -> "Linux" [] sysplat = "darwin" -> "Darwin"
